@@ -610,6 +610,20 @@ def path_obs(rep, rng, kind, params, t, mode, o, stats):
 
 
 # ------------------------------------------------- Path.curvature at joints
+def detect_joins_variant():
+    """'isclose' when QuadraticBezier/Arc.joins_smoothly_with compare tangents with a tolerance by
+    default (fix C15-joins-smoothly-quad-arc), 'exact' for the pinned error=0 comparison; detected on
+    the two pieces of a split quadratic whose unit tangents differ by one ulp"""
+    from svgpathtools import QuadraticBezier
+    a, b = QuadraticBezier(0j, 1 + 2j, 3 + 1j).split(0.4)
+    try:
+        if a.unit_tangent(1) == b.unit_tangent(0):
+            return 'undetermined'
+        return 'isclose' if b.joins_smoothly_with(a) else 'exact'
+    except Exception:
+        return 'undetermined'
+
+
 def kind_of(seg):
     return {'Line': 'line', 'QuadraticBezier': 'quad', 'CubicBezier': 'cubic', 'Arc': 'arc'}[type(seg).__name__]
 
@@ -637,7 +651,9 @@ def joint_paths(rng, n):
         return CubicBezier(pt(), pt(), pt(), pt())
     shapes = ['split-cubic', 'split-cubic3', 'collinear-lines', 'collinear-lines-dyadic', 'line-cubic', 'cubic-line',
               'closed-smooth-cubics', 'closed-polygon', 'kink-lines', 'kink-cubic-line', 'kink-cubics-closed',
-              'split-quad', 'split-arc', 'line-quad', 'quad-line', 'arc-arc-circle', 'cubic-arc-mixed']
+              'split-quad', 'split-arc', 'line-quad', 'quad-line', 'arc-arc-circle', 'cubic-arc-mixed',
+              'kink-line-quad', 'kink-quad-arc', 'small-kink-line', 'small-kink-cubic', 'small-kink-quad',
+              'small-kink-arc']
     for i in range(n):
         sh = shapes[i % len(shapes)]
         t0 = rng.choice([0.5, 0.25, 0.75, rng.uniform(0.1, 0.9)])
@@ -679,6 +695,34 @@ def joint_paths(rng, n):
         elif sh == 'kink-cubics-closed':
             p, q = pt(), pt()
             segs = [CubicBezier(p, pt(), pt(), q), CubicBezier(q, pt(), pt(), p)]
+        elif sh == 'kink-line-quad':
+            a, b = pt(), pt()
+            d = (b - a) * cmath.exp(1j * rng.choice([1, -1]) * rng.uniform(0.3, 2.8))
+            segs = [Line(a, b), QuadraticBezier(b, b + d, pt())]
+        elif sh == 'kink-quad-arc':
+            q = QuadraticBezier(pt(), pt(), pt())
+            segs = [q, Arc(q.end, complex(3, 2), 0.0, False, rng.random() < 0.5, q.end + pt(3))]
+            da, db = end_dirs(segs[0])[1], end_dirs(segs[1])[0]
+            if abs(da - db) < 0.1:      # accidentally tangent: turn it into a plain kink
+                segs[1] = Arc(q.end, complex(3, 2), 0.0, False, not segs[1].sweep, segs[1].end)
+        elif sh.startswith('small-kink'):
+            # a kink of 1e-3 .. 3e-2 rad: far above the np.isclose tolerance (~1e-5) of joins_smoothly_with
+            a, b = pt(), pt()
+            d = (b - a) * cmath.exp(1j * rng.choice([1, -1]) * 10 ** rng.uniform(-3, -1.5))
+            if sh.endswith('line'):
+                nxt = Line(b, b + d)
+            elif sh.endswith('cubic'):
+                nxt = CubicBezier(b, b + d, pt(), pt())
+            elif sh.endswith('quad'):
+                nxt = QuadraticBezier(b, b + d, pt())
+            else:
+                # circle arc leaving b in direction d/|d|: centre to the left of the direction of travel
+                u = d / abs(d)
+                r = rng.uniform(1, 4)
+                c0 = b + 1j * u * r
+                ang = rng.uniform(0.3, 2.0)
+                nxt = Arc(b, complex(r, r), 0.0, False, True, c0 + (b - c0) * cmath.exp(1j * ang))
+            segs = [Line(a, b), nxt]
         elif sh == 'split-quad':
             segs = list(QuadraticBezier(pt(), pt(), pt()).split(t0))
         elif sh == 'split-arc':
@@ -797,7 +841,7 @@ def check_joints(rep, name, segs, stats):
             elif not (abs(val - expect) <= tol):
                 rep.violation('C15: Path.curvature(%r) = %r at a smooth joint (%s), the curvature of segment %d there is %r'
                               % (T, val, name, k, expect), rp, key='path-curvature-joint-value')
-        elif (not same_pt) or dev > 0.05:
+        elif (not same_pt) or dev > 5e-4:     # np.isclose on unit tangents tolerates ~1.001e-5
             stats['joint_kink'] += 1
             if not math.isinf(val):
                 rep.violation('C15: Path.curvature(%r) = %r at a kink (%s: directions %r -> %r), expected inf'
@@ -843,6 +887,7 @@ def run(rep, tier, seed, replay=None):
             common.run_agree = run_agree
         if not repaired:
             rep.notes.append('pinned fallback detected: agreement lemmas %s (repaired model) skipped' % (REPAIRED_ONLY,))
+        rep.cov['variant_joins_smoothly_quad_arc'] = detect_joins_variant()
         rep.cov['variant'] = ('repaired fallback (direction of the first non-vanishing derivative): model flag true'
                               if repaired else 'pinned fallback (rational_limit + principal sqrt): model flag false')
         n_reg, n_sing, n_tiny = (420, 144, 192) if tier == 'quick' else (4200, 1440, 1920)
@@ -857,7 +902,7 @@ def run(rep, tier, seed, replay=None):
             r = json.load(open(replay))['replay']
             todo.append(params_from_replay(r))
         else:
-            for name, segs in joint_paths(common.mkrng(seed, 'C15-joints'), 170 if tier == 'quick' else 1700):
+            for name, segs in joint_paths(common.mkrng(seed, 'C15-joints'), 230 if tier == 'quick' else 2300):
                 jstats['joint_paths'] += 1
                 try:
                     check_joints(rep, name, segs, jstats)
